@@ -315,6 +315,14 @@ func (r *rig) applyDevs(rnd *rand.Rand, b *types.Block, devs [][2]string) {
 				h.Flags |= types.Snapshot
 			case "flags=allbits":
 				h.Flags = types.BlockFlag(math.MaxUint32)
+			case "flags=offcommit_addr":
+				h.Flags |= types.OfflineCommit
+				a := r.addr(kVerified)
+				h.OfflineAddr = &a
+			case "flags=offpropose_addr":
+				h.Flags |= types.OfflinePropose
+				a := r.addr(kVerified)
+				h.OfflineAddr = &a
 			case "offaddr=set":
 				a := r.addr(kPool)
 				h.OfflineAddr = &a
@@ -387,6 +395,10 @@ func (r *rig) applyDevs(rnd *rand.Rand, b *types.Block, devs [][2]string) {
 				h.Flags |= types.Snapshot
 			case "flags=allbits":
 				h.Flags = types.BlockFlag(math.MaxUint32)
+			case "flags=offcommit_addr":
+				h.Flags |= types.OfflineCommit // an empty header has no room for the address
+			case "flags=offpropose_addr":
+				h.Flags |= types.OfflinePropose
 			case "seed=wrong":
 				h.BlockSeed = types.BytesToSeed(rbytes(rnd, 32))
 			case "parent=wrong":
@@ -472,8 +484,7 @@ func (r *rig) validPayload(rnd *rand.Rand, typ uint16, to *common.Address) []byt
 		return attachments.CreateShortAnswerAttachment(rbytes(rnd, 4), rnd.Uint64(), 0)
 	case types.SubmitLongAnswersTx:
 		if longKey == nil {
-			k, _ := crypto.GenerateKey()
-			longKey = ecies.ImportECDSA(k)
+			longKey = ecies.ImportECDSA(sim.DetKey(seed, 99))
 		}
 		return attachments.CreateLongAnswerAttachment(rbytes(rnd, 8), rbytes(rnd, 129), rbytes(rnd, 16), longKey)
 	case types.EvidenceTx:
